@@ -23,7 +23,8 @@ def one(n):
             t = time.time()
             # evidence of a run against a changed copy must not replace the evidence of the real tree
             r = subprocess.run(['python3-vt', f'{HERE}/check.py', prop, '--repo', d], capture_output=True, text=True, cwd=HERE,
-                               env={**os.environ, 'PVC_EVIDENCE_DIR': os.path.join(d, '_evidence'), 'PVC_NO_MUTANTS': '1'})
+                               env={**os.environ, 'PVC_EVIDENCE_DIR': os.path.join(d, '_evidence'), 'PVC_NO_MUTANTS': '1',
+                                    'PVC_CACHE': os.environ.get('PVC_CACHE', os.path.join(HERE, '.cache', 'pvc'))})
             vio = [l for l in r.stdout.splitlines() if l.startswith('VIOLATION')]
             fo = [l.strip() for l in r.stdout.splitlines() if 'failed obligation' in l or l.startswith('UNDECIDED')]
             out.append((prop, r.returncode, len(vio), any('no-failing-input-found' not in v for v in vio), round(time.time() - t), fo[:2]))
